@@ -1,7 +1,7 @@
 /-
 C17 - specification of remote property access, written from the property statement and the DBus
 specification only.  It shares the vocabulary of operations, outputs and Python values with the code model
-(`Op`, `Out`, `PyVal`, the signature dispatch `DTy`), nothing of its logic.
+(`Op`, `Out`, `PVal`, the signature dispatch `DTy`), nothing of its logic.
 
 State: the map (instance, interface, property) -> value, plus which instances are exported.
 Declarations: the set of declared properties, each with the Python attribute it is assigned through, its
@@ -47,12 +47,12 @@ def SDecl.byAttr (d : SDecl) (a : Str) : Option SProp :=
   d.props.find? fun sp => sp.attr = a
 
 structure SSt where
-  val : Nat → Str → Str → Option PyVal
+  val : Nat → Str → Str → Option PVal
   attached : Nat → Bool
 
 def SSt.init : SSt := ⟨fun _ _ _ => none, fun _ => false⟩
 
-def SSt.write (s : SSt) (o : Nat) (i p : Str) (v : PyVal) : SSt :=
+def SSt.write (s : SSt) (o : Nat) (i p : Str) (v : PVal) : SSt :=
   { s with val := fun o' i' p' => if o' = o ∧ i' = i ∧ p' = p then some v else s.val o' i' p' }
 
 /-! ### Values of a DBus type (DBus specification, "Type system") -/
@@ -73,11 +73,11 @@ def validPath (p : Str) : Bool :=
 
 def strOk (s : Str) : Bool := !s.contains (Char.ofNat 0)
 
-/-- `v` is a value of the DBus type `t`.  Integers by range, BOOLEAN a `bool`, DOUBLE a `float`, STRING
+/-- The plain Python value `v` is a value of the DBus type `t`.  Integers by range, BOOLEAN a `bool`, DOUBLE a `float`, STRING
 without NUL, OBJECT_PATH a valid path, SIGNATURE ASCII of at most 255 bytes (txdbus does not check the
 signature grammar - that is C19's subject), ARRAY of STRING a list of NUL-free strings, VARIANT any value
 that has a DBus type at all. -/
-def HasType (ty : DTy) (v : PyVal) : Bool :=
+def HasTypeP (ty : DTy) (v : PVal) : Bool :=
   match ty, v with
   | .y, .int n => 0 ≤ n ∧ n ≤ 255
   | .n, .int n => -32768 ≤ n ∧ n ≤ 32767
@@ -100,26 +100,54 @@ def HasType (ty : DTy) (v : PyVal) : Bool :=
   | .v, .strs l => l.all strOk
   | _, _ => false
 
-/-- `v` is a value of the type written `sig` (signatures outside the model's types have no values). -/
-def HasTypeSig (sig : Str) (v : PyVal) : Bool :=
-  match DTy.ofSig sig with
-  | some ty => HasType ty v
-  | none => false
-
 /-- The twelve basic types a property can be declared with (UNIX_FD is outside the model). -/
 def IsBasic (sig : Str) : Bool :=
   match sig with
   | [c] => c ∈ ['y', 'b', 'n', 'q', 'i', 'u', 'x', 't', 'd', 's', 'o', 'g']
   | _ => false
 
-/-- A value that can have been decoded from a DBus message: no `None`, 64-bit integers, NUL-free strings. -/
-def wireOk : PyVal → Bool
+/-- An instance of one of marshal's wrapper classes is a valid instance of its own type (Byte(300) is not). -/
+def wrapperOk : PVal → Bool
+  | .wint c n =>
+    IsBasic [c] &&
+    match DTy.ofSig [c] with
+    | some ty => HasTypeP ty (PVal.wint c n).plain
+    | none => false
+  | .wstr c s =>
+    IsBasic [c] &&
+    match DTy.ofSig [c] with
+    | some ty => HasTypeP ty (.str s)
+    | none => false
+  | _ => true
+
+/-- `v` is a value of the DBus type `t`: a plain value of that type, or a valid wrapper instance whose plain
+value is (`Byte(7)` is a value of UINT32, `ObjectPath('/a')` of STRING). -/
+def HasType (ty : DTy) (v : PVal) : Bool := wrapperOk v && HasTypeP ty v.plain
+
+/-- `v` is a value of the type written `sig` (signatures outside the model's types have no values). -/
+def HasTypeSig (sig : Str) (v : PVal) : Bool :=
+  match DTy.ofSig sig with
+  | some ty => HasType ty v
+  | none => false
+
+/-- A value of the theorems' universe that can have been decoded from a DBus message: no `None`, 64-bit
+integers, NUL-free strings, lists of such strings (the further containers of `PVal` are outside). -/
+def wireOk : PVal → Bool
   | .none => false
   | .int n => -9223372036854775808 ≤ n ∧ n ≤ 18446744073709551615
   | .bool _ => true
   | .dbl _ => true
   | .str s => strOk s
   | .strs l => l.all strOk
+  | .wint _ _ => false
+  | .wstr _ _ => false
+  | .list _ => false
+  | .tuple _ => false
+  | .dict _ => false
+  | .lists _ => false
+
+/-- A value that can be sent inside a variant as it is: a wire value, or a valid wrapper instance. -/
+def Sendable (v : PVal) : Bool := wrapperOk v && wireOk v.plain
 
 /-! ### State evolution -/
 
@@ -155,43 +183,50 @@ def GetAllowed (d : SDecl) (s : SSt) (o : Nat) (i p : Str) (outs : List Out) : P
   | some sp =>
     if sp.readable then
       ∀ v, s.val o i p = some v → HasTypeSig sp.sig v →
-        ∃ sg, outs = [.retV sg v] ∧ (IsBasic sp.sig → sg = sp.sig)
+        ∃ sg, outs = [.retV sg v.plain] ∧ (IsBasic sp.sig → sg = sp.sig)
     else IsErr outs
 
 /-- Set of (i, p) on an exported instance: an error unless declared, writeable and well typed; on success
 an empty method return preceded by exactly one PropertiesChanged iff the property emits. -/
-def SetAllowed (d : SDecl) (o : Nat) (i p : Str) (v : PyVal) (outs : List Out) : Prop :=
+def SetAllowed (d : SDecl) (o : Nat) (i p : Str) (v : PVal) (outs : List Out) : Prop :=
   match d.find i p with
   | none => IsErr outs
   | some sp =>
     if sp.writable ∧ HasTypeSig sp.sig v then
-      if sp.emits then ∃ sg, outs = [.signal o i p sg v, .ret] else outs = [.ret]
+      if sp.emits then ∃ sg, outs = [.signal o i p sg v.plain, .ret] else outs = [.ret]
     else IsErr outs
 
-/-- GetAll of interface `i` on an exported instance: an error for an interface the object does not have;
-otherwise, when the readable properties of `i` all hold values of their types: exactly those properties,
-each once, each with its value, typed as for Get. -/
+/-- GetAll of interface `i` on an exported instance.
+* an interface the object does not have: an error;
+* otherwise the reply is an error or one dictionary, and ANY dictionary returned lists exactly the readable
+  declared properties of `i`, each once (never a write-only one, never one twice, none missing), every entry
+  whose property holds a value of its type carrying that value, typed as for Get (soundness, unconditional);
+* and when all readable properties of `i` hold values of their types the reply IS a dictionary (completeness). -/
 def GetAllAllowed (d : SDecl) (s : SSt) (o : Nat) (i : Str) (outs : List Out) : Prop :=
   if i ∈ d.ifaces then
-    (∀ sp ∈ d.props, sp.iface = i → sp.readable → ∃ v, s.val o i sp.name = some v ∧ HasTypeSig sp.sig v) →
-    ∃ l, outs = [.retD l] ∧ (l.map (·.1)).Nodup ∧
+    (IsErr outs ∨ ∃ l, outs = [.retD l]) ∧
+    (∀ l, outs = [.retD l] →
+      (l.map (·.1)).Nodup ∧
       (∀ p, p ∈ l.map (·.1) ↔ ∃ sp, d.find i p = some sp ∧ sp.readable) ∧
-      (∀ p sg w, (p, sg, w) ∈ l →
-        ∃ sp, d.find i p = some sp ∧ s.val o i p = some w ∧ (IsBasic sp.sig → sg = sp.sig))
+      (∀ p sg w, (p, sg, w) ∈ l → ∃ sp, d.find i p = some sp ∧
+        ∀ v, s.val o i p = some v → HasTypeSig sp.sig v → w = v.plain ∧ (IsBasic sp.sig → sg = sp.sig))) ∧
+    ((∀ sp ∈ d.props, sp.iface = i → sp.readable → ∃ v, s.val o i sp.name = some v ∧ HasTypeSig sp.sig v) →
+      ∃ l, outs = [.retD l])
   else IsErr outs
 
 def isSignal : Out → Bool
   | .signal _ _ _ _ _ => true
   | _ => false
 
-/-- Local assignment through attribute `a`: one PropertiesChanged naming interface, property and the new
-value iff the property emits (and the instance is exported, the value one that can be sent); no signal
-otherwise. -/
-def AssignAllowed (d : SDecl) (s : SSt) (o : Nat) (a : Str) (v : PyVal) (outs : List Out) : Prop :=
+/-- Local assignment through attribute `a`: exactly one PropertiesChanged naming interface, property and the
+new value when the property emits (the instance being exported and the value one that can be sent); nothing
+but completion when the property does not emit or the instance is not exported. -/
+def AssignAllowed (d : SDecl) (s : SSt) (o : Nat) (a : Str) (v : PVal) (outs : List Out) : Prop :=
   match d.byAttr a with
   | none => outs = [.done]
   | some sp =>
-    if sp.emits ∧ s.attached o ∧ wireOk v then ∃ sg, outs = [.signal o sp.iface sp.name sg v, .done]
-    else (∀ x ∈ outs, isSignal x = false)
+    if sp.emits ∧ s.attached o then
+      Sendable v → ∃ sg, outs = [.signal o sp.iface sp.name sg v.plain, .done]
+    else outs = [.done]
 
 end Txdbus.Obj.PropsSpec
